@@ -34,6 +34,10 @@ Theorem C17_chain_limits : forallb (fun p => (0 <? cp_pow_limit p) && (cp_pow_li
   /\ length chains = 4%nat.
 Proof. split; vm_compute; reflexivity. Qed.
 
+(* and they are the consensus limits of mainnet, testnet, signet, regtest *)
+Theorem C17_chain_limits_consensus : map cp_pow_limit chains = consensus_pow_limits.
+Proof. vm_compute; reflexivity. Qed.
+
 (* non-vacuity: the hypotheses are met by concrete values, and both outcomes occur *)
 Example C17_nonvacuous :
   canonical 0x1d00ffff = true /\ c_sign 0x1d00ffff = false /\
@@ -49,3 +53,4 @@ Print Assumptions C17_encode_decode.
 Print Assumptions C17_decode_sign_clear.
 Print Assumptions C17_check_pow.
 Print Assumptions C17_chain_limits.
+Print Assumptions C17_chain_limits_consensus.
